@@ -143,7 +143,7 @@ def small_asts(thorough):
 class C05(common.Prop):
     id = 'C05'
     level = 'proof'
-    technique = ('Coq: unbounded theorem for node multipliers (denote_expand + reader simulation: same graph, same numbering), bounded-exhaustive '
+    technique = ('Coq: unbounded theorems for node multipliers and for top-level branch multipliers (same graph, same numbering as the longhand), bounded-exhaustive '
                  'theorem over enumerated small ASTs with multipliers, refutation witnesses per defect class; per-run '
                  'metamorphic check shorthand vs longhand on the implementation (renumbering witness checked in Coq) and '
                  'correspondence of the reader model on both strings')
